@@ -124,7 +124,7 @@ def run(ctx, rep):
                 # the parse of this entry failed: `.ok()` (or the equivalent match) ends the iteration; next() itself must leave the
                 # cursor where the failed parse left it (a rewind would start a second pass)
                 offv = an.read(st, off_lv)
-                left = offv is ioff or (offv.op == "fresh" and str(offv.args[1]).endswith(":err"))
+                left = offv is ioff or (offv.op == "errval" and offv.args[0] is R) or (offv.op == "fresh" and str(offv.args[1]).endswith(":err"))
                 rep.require(left, "iterator", "next:after-failure", w, "cursor untouched by next() after a failed parse",
                             "ParsingIterator::next sets the offset to %s after a failed parse: iteration does not stay finished" % pp(offv)[:120])
                 continue
